@@ -336,6 +336,23 @@ func init() {
 							skAdd(1, m.Value(i0+1)), skAdd(1, m.Value(i0+2*k.N+3)), skAdd(1, -m.Value(i0+5)),
 							skMerge(0, 1), skMerge(1, 0), skCopy(0, 1), skClear(0), skCodec(0, 1, false, false), skCodec(0, 1, true, true))
 						sks = append(sks, sp)
+						if pi == 0 && k.N <= 4 {
+							// the same world with slot a built by the library's collapsing-sketch constructor
+							cn := "LogCollapsingLowestDenseDDSketch"
+							if k.K == 'H' {
+								cn = "LogCollapsingHighestDenseDDSketch"
+							}
+							c, a, n := ctorByName(cn), a, k.N
+							cs := *sp
+							cs.Name = fmt.Sprintf("C05/sketch/%s(%s, %d)+%s", cn, fstr(a), n, partner)
+							cs.Ctor = func(slot int) *SkSlot {
+								if slot == 0 {
+									return c.New(a, n)
+								}
+								return nil
+							}
+							sks = append(sks, &cs)
+						}
 					}
 				}
 			}
